@@ -87,6 +87,11 @@ def is_big(v):
 def _obs(job):
     from .. import clirun
     vec, mode, eid = job
+    if risky(vec):
+        mode = "subprocess" if mode == "inprocess" else mode
+        clirun.TIMEOUT[0] = 60
+    else:
+        clirun.TIMEOUT[0] = 300
     obs, extra = clirun.observe(vec, mode)
     ev = {"id": eid, "act": "Cli", "argv": vec, "mode": mode, "obs": obs, "args": extra["args"], "stderr_tail": extra["stderr_tail"]}
     if mode == "closedpipe":
@@ -116,6 +121,17 @@ def pick(ctx, vecs):
     rest = [v for v in vecs if v not in keep]
     keep += rng.sample(rest, 250)
     return keep
+
+
+def risky(v):
+    """a reversed interval with far-apart bounds: empty for a conformant command line, but a run that swaps or misreads
+    the bounds would try to print millions of rows - executed as a subprocess under a short time limit only"""
+    from .. import clirun
+    try:
+        s, e = int(clirun.BOUND[v["start"]]), int(clirun.BOUND[v["end"]])
+    except ValueError:
+        return False
+    return s - e > 64
 
 
 def expensive(v):
